@@ -107,7 +107,7 @@ func (obj *CauchyDistribution) SetParameters(parameters Vector) error {
 
 func (obj *CauchyDistribution) ImportConfig(config ConfigDistribution, t ScalarType) error {
 
-  if parameters, ok := config.GetParametersAsFloats(); !ok {
+  if parameters, ok := config.GetParametersAsFloats(); !ok || len(parameters) < 2 {
     return fmt.Errorf("invalid config file")
   } else {
     mu    := NewScalar(t, parameters[0])
